@@ -237,7 +237,9 @@ func main() {
 		var f struct {
 			Cases []Case `json:"cases"`
 		}
-		if err := json.Unmarshal(b, &f); err != nil {
+		dec := json.NewDecoder(bytes.NewReader(b))
+		dec.UseNumber()
+		if err := dec.Decode(&f); err != nil {
 			fmt.Fprintln(os.Stderr, path, err)
 			os.Exit(2)
 		}
